@@ -11,7 +11,7 @@ import os
 from vf import common, refcheck, javac, terms
 
 RULES = {'C01': {'INIT', 'ARG', 'RET', 'COND', 'ASSIGN', 'ELEM', 'DEFAULT', 'TARG', 'ABSTRACT', 'OVERRIDE',
-                 'FINALSUPER'},
+                 'FINALSUPER', 'GENEXPR'},
          'C05': {'RESOLVE', 'ARITY', 'MUTABLE', 'CONCRETE', 'TYVAR', 'UNIQUE', 'RESERVED'}}
 
 
@@ -56,9 +56,35 @@ class Monitor:
         self.root = os.path.join(cell['_scratch'], 'c01')
         self.res = reserved_words(self.lang)
 
+    def _install_genexpr(self):
+        """Second monitor of C01: wrapper on Generator.generate_expr(expr_type, ...) -> expr.  Records the
+        requested type (as a term, at call time) with the node returned; the walker judges `type of the
+        node <= requested type` at the node's position for every node that survives into the program."""
+        if getattr(Monitor, '_gx_installed', False):
+            return
+        from src.generators import generator as G
+        orig = G.Generator.generate_expr
+        mon_box = Monitor._gx_box = {'rec': None}
+
+        def generate_expr(gself, expr_type=None, *a, **k):
+            r = orig(gself, expr_type, *a, **k)
+            rec = mon_box['rec']
+            if rec is not None and expr_type is not None and r is not None:
+                try:
+                    rec.append((r, refcheck.strip_v(terms.to_term(expr_type))))
+                except Exception:
+                    pass
+            return r
+        G.Generator.generate_expr = generate_expr
+        Monitor._gx_installed = True
+
     def case_begin(self, case):
         self.case = case
         self.found = None
+        if self.prop == 'C01':
+            self._install_genexpr()
+            self.gx = []
+            Monitor._gx_box['rec'] = self.gx
         if self.prop == 'C05':
             # invariant at a quiescent point: after the driver's reset of the identifier pool no
             # reserved word of the target language can be drawn (every identifier comes from the pool)
@@ -73,7 +99,19 @@ class Monitor:
     def after_generate(self, program):
         out = self.out
         try:
-            ck = refcheck.Checker(program, self.lang, self.res).run()
+            ck = refcheck.Checker(program, self.lang, self.res)
+            if self.prop == 'C01':
+                Monitor._gx_box['rec'] = None
+                ge = {}
+                for node, want in self.gx:
+                    ge.setdefault(id(node), [])
+                    if want not in ge[id(node)]:
+                        ge[id(node)].append(want)
+                ck.gen_expect = ge
+                out.ev('generate_expr-calls-recorded', len(self.gx))
+            ck.run()
+            if self.prop == 'C01':
+                out.ev('generate_expr-results-not-in-program', len(ck.gen_expect))
         except RecursionError:
             out.skip('checker-recursion')
             return
@@ -190,6 +228,7 @@ def finish(agg, tier):
         agg.floor('positions:ARG', 600 if q else 10000)
         agg.floor('positions:RET', 600 if q else 10000)
         agg.floor('javac-runs', 30 if q else 500)
+        agg.floor('positions:GENEXPR', 1500 if q else 25000)
     else:
         agg.floor('positions:RESOLVE', 3000 if q else 50000)
         agg.floor('positions:ARITY', 800 if q else 12000)
